@@ -61,6 +61,7 @@ func (x *xs) perturb() {
 // runProgram executes p; it returns a description of a violated expectation (deadlock, lost update) or "".
 // Data races are reported by the race detector, which stops the process (the driver turns the journal into the replay).
 func runProgram(p *Program) string { //nolint:cyclop,gocognit
+	kit.Idle()
 	rig, err := kit.NewRig(kit.MembersFor(p.Member), interval)
 	if err != nil {
 		return "harness: " + err.Error()
